@@ -129,6 +129,10 @@ type vmCase struct {
 	Seq    uint32 `json:"seq"`
 	NoTx   bool   `json:"notx"`
 	Src    string `json:"src"`
+	// odd transaction contexts (C07): input index override, nil previous output, extra inputs
+	Idx     *int `json:"idx,omitempty"`
+	NilPrev bool `json:"nilprev,omitempty"`
+	NIn     int  `json:"nin,omitempty"`
 }
 
 func toBytes(a []int) []byte {
@@ -158,11 +162,24 @@ func runVM(c vmCase, dbg string) vmResult {
 		in := &bt.Input{PreviousTxOutIndex: 0, SequenceNumber: c.Seq, UnlockingScript: us}
 		_ = in.PreviousTxIDAdd(bytes.Repeat([]byte{0x11}, 32))
 		tx.Inputs = []*bt.Input{in}
+		for k := 1; k < c.NIn; k++ {
+			extra := &bt.Input{PreviousTxOutIndex: uint32(k), SequenceNumber: c.Seq, UnlockingScript: bscript.NewFromBytes([]byte{0x51})}
+			_ = extra.PreviousTxIDAdd(bytes.Repeat([]byte{0x22}, 32))
+			tx.Inputs = append(tx.Inputs, extra)
+		}
 		tx.Outputs = []*bt.Output{{Satoshis: 0, LockingScript: bscript.NewFromBytes([]byte{})}}
 		txBefore = tx.Bytes()
-		opts = append(opts, interpreter.WithTx(tx, 0, &bt.Output{Satoshis: 0, LockingScript: ls}))
+		idx := 0
+		if c.Idx != nil {
+			idx = *c.Idx
+		}
+		var prev *bt.Output
+		if !c.NilPrev {
+			prev = &bt.Output{Satoshis: 0, LockingScript: ls}
+		}
+		opts = append(opts, interpreter.WithTx(tx, idx, prev))
 	}
-	res := vmResult{rec: &recorder{scribble: dbg == "scribble", limit: len(unlock) + len(lock) + 600}}
+	res := vmResult{rec: &recorder{scribble: dbg == "scribble", limit: len(unlock) + len(lock) + 600, calls: []string{}}}
 	if dbg != "none" {
 		opts = append(opts, interpreter.WithDebugger(res.rec))
 	}
@@ -228,7 +245,8 @@ func vmCmd(args []string) error {
 		for _, s := range r.rec.steps {
 			w(s)
 		}
-		end := Ev{"ev": "end", "outcome": r.outcome, "err": r.errText, "same": r.same, "steps": len(r.rec.steps), "calls": r.rec.calls}
+		end := Ev{"ev": "end", "outcome": r.outcome, "err": r.errText, "same": r.same, "steps": len(r.rec.steps), "calls": r.rec.calls,
+			"oddctx": c.Idx != nil || c.NilPrev}
 		if *three {
 			n := runVM(c, "none")
 			s := runVM(c, "scribble")
